@@ -6,3 +6,13 @@ export GOFLAGS=-mod=mod GOPROXY=off GOSUMDB=off GOTOOLCHAIN=local
 mkdir -p ../bin ../evidence ../replays
 go build -o ../bin/vcheck ./cmd/vcheck
 echo "vcheck built"
+# Warm the Go build cache with the dependencies of the tree under test, so that the first
+# obligation of a cold environment does not spend its time budget compiling them. Works on a
+# scratch copy of go.mod/go.sum (never touches the tree); failures here are not fatal.
+repo="${VERIF_REPO:-/repo}"
+if [ -f "$repo/go.mod" ]; then
+  td=$(mktemp -d)
+  cp "$repo/go.mod" "$td/go.mod"; cp "$repo/go.sum" "$td/go.sum" 2>/dev/null || true
+  (cd "$repo" && go build -modfile="$td/go.mod" ./... >/dev/null 2>&1 && go vet -modfile="$td/go.mod" -tags verif ./... >/dev/null 2>&1) || true
+  rm -rf "$td"
+fi
